@@ -5,9 +5,9 @@ CONSTANT SEEDS = {1, 2}
 CONSTANT DRAWS = {1}
 CONSTANT MaxLen = 5
 CONSTANT Libs = {"good"}
-CONSTANT Canon = FALSE
+CONSTANT Canon = TRUE
 CONSTANT GenMode = "none"
-CONSTANT Cost <- CostMixed
+CONSTANT Cost <- CostOne
 INVARIANT TypeOK
 INVARIANT RecordingFaithful
 INVARIANT GlobalUntouchedInv
